@@ -44,6 +44,9 @@ CHECKS = {
  "C13": dict(cat="exploration", technique="exhaustive enumeration of fragment concatenations x layout skeletons x widths; renderings compared with the unwrapped rendering and with the first-paragraph variant of the same definition",
    text="12 layout skeletons with the text slot ranging over every concatenation of <=3 (thorough 4) fragments from 13 (long word, breaks, blank lines, code line, non-ASCII, tab, NBSP, ESC, dashes), each rendered at every width 1..100(300): identical content modulo whitespace, width respected from 40 columns up with the documented exemptions, short help equals the full help of the first-paragraph variant.",
    note="Widths above 300 other than 65535 are not explored; error documents are those of one rejected vector per skeleton.", ref="4/C13"),
+ "C16": dict(cat="exploration", technique="exhaustive enumeration of definition tuples and of metacharacter fragment concatenations x text slots x three renderers; outputs scanned by independent HTML tag and roff lexers and sectioned per command level",
+   text="Structure: the C12 family rendered by render_markdown/html/manpage must have one section per reachable command level mentioning every visible name and no hidden/alias name. Text: 8 text slots x every concatenation of <=3 (thorough 4) of 20 roff/HTML/markdown metacharacter fragments; HTML must consist of the renderer's own tags, perfectly nested, with no raw angle bracket from user text; every manpage line starting with a control character must be one of bpaf's requests, only bpaf's escapes may occur and decoding them gives the help lines back.",
+   note="Trusted: lex_html / lex_roff in checks/c16.rs. Markdown is only checked for sections and names (the property demands no escaping there).", ref="4/C16"),
 }
 NOT_YET = {}
 def main():
